@@ -38,12 +38,31 @@ def gen_lm(r):
         out.append({"name": nm, "type": ty, "required": required,
                     "default": None if required or ty == "optint" else (10 + i if ty == "int" else f"d{i}"),
                     "kw_only": False})
+        # the default given as a zero-argument factory that returns that same value (where the kind has factories)
+        out[-1]["factory"] = (not required) and ty != "optint" and r.random() < 0.35
     out.sort(key=lambda f: not f["required"])               # positional kinds need required first
     if r.random() < 0.3:
         out[-1]["kw_only"] = True
     if r.random() < 0.3:
         r.choice([out[0], out[-1], out[-1]])["private"] = True     # attribute _name; attrs' parameter drops the underscore
     return out
+
+
+def _f(name, ty, required, default=None, factory=False, kw_only=False):
+    return {"name": name, "type": ty, "required": required, "default": default, "kw_only": kw_only, "factory": factory}
+
+
+# logical models that run first on every seed
+CORPUS_LM = [
+    [_f("id", "int", True), _f("role", "str", False, "guest", factory=True), _f("note", "str", False, "-")],
+    [_f("code", "str", True), _f("title", "str", True), _f("rank", "int", False, 3, factory=True)],
+    [_f("alpha", "int", True), _f("beta", "int", False, 11, factory=True), _f("gamma", "str", False, "g", factory=True, kw_only=True)],
+]
+
+
+def const_factory(d):
+    """a zero-argument factory (SQLAlchemy passes a context to callables that take a parameter)"""
+    return lambda: d
 
 
 def attr_name(f):
@@ -76,7 +95,8 @@ def materialise(kind, lm):
         specs = []
         for f in lm:
             kw = {"kw_only": True} if f["kw_only"] else {}
-            specs.append((attr_name(f), py[f["type"]], dc_field(**kw) if f["required"] else dc_field(default=f["default"], **kw)))
+            specs.append((attr_name(f), py[f["type"]], dc_field(**kw) if f["required"] else
+                          dc_field(default_factory=const_factory(f["default"]), **kw) if f.get("factory") else dc_field(default=f["default"], **kw)))
         return make_dataclass(f"DC{n}", specs)
     if kind == "named_tuple":
         ns = {}
@@ -112,11 +132,14 @@ def materialise(kind, lm):
         for f in lm:
             kw = {"kw_only": True} if f["kw_only"] else {}
             attrib[attr_name(f)] = attrs.field(type=py[f["type"]], **kw) if f["required"] else \
+                attrs.field(type=py[f["type"]], factory=const_factory(f["default"]), **kw) if f.get("factory") else \
                 attrs.field(type=py[f["type"]], default=f["default"], **kw)
         return attrs.make_class(f"AT{n}", attrib)
     if kind == "pydantic":
         import pydantic
-        fields = {f["name"]: ((py[f["type"]], ...) if f["required"] else (py[f["type"]], f["default"])) for f in lm}
+        fields = {f["name"]: ((py[f["type"]], ...) if f["required"] else
+                              (py[f["type"]], pydantic.Field(default_factory=const_factory(f["default"]))) if f.get("factory") else
+                              (py[f["type"]], f["default"])) for f in lm}
         return pydantic.create_model(f"PD{n}", **fields)
     if kind == "sqlalchemy":
         from sqlalchemy import Integer, String
@@ -129,10 +152,11 @@ def materialise(kind, lm):
             col_t = Integer if f["type"] == "int" else String
             kw = {}
             if first:
-                kw = {"primary_key": True, "autoincrement": False}
+                # a natural (string) key is declared the ordinary way; an integer key says it is not generated by the database
+                kw = {"primary_key": True} if f["type"] == "str" else {"primary_key": True, "autoincrement": False}
                 first = False
             if not f["required"]:
-                kw["default"] = f["default"]
+                kw["default"] = const_factory(f["default"]) if f.get("factory") else f["default"]
             body["__annotations__"][f["name"]] = Mapped[py[f["type"]]]
             body[f["name"]] = mapped_column(col_t, **kw)
         return type(f"SA{n}", (Base,), body)
@@ -205,8 +229,8 @@ def run(rep, tier, seed):
     n_models = 25 if tier == "quick" else 250
     stats = {"models": 0, "kinds": {k: 0 for k in KINDS}, "loads": 0, "dumps": 0, "converters": 0, "shape_checks": 0, "recipes": {}}
     shape_cases, shape_meta, samples = [], [], []
-    for mi in range(n_models):
-        lm = gen_lm(r)
+    for mi in range(n_models + len(CORPUS_LM)):
+        lm = [dict(f) for f in CORPUS_LM[mi]] if mi < len(CORPUS_LM) else gen_lm(r)
         kinds = [k for k in KINDS if supports(k, lm)]
         classes = {}
         for k in kinds:
